@@ -111,6 +111,8 @@ class C10:
         cfg = E.sample_cfg(name, rc, tier, small=True)
         if cfg["n"] > 12 and tier != "thorough":
             cfg = E.sample_cfg(name, rc, tier, small=True)
+        if use_am:
+            cfg = E.for_network(cfg)
         env = E.make_env(cfg)
         b = rc.choice([1, 2, 2, 3, 4])
         if name == "mtsp":
